@@ -20,7 +20,7 @@ EXTENDS Naturals, Sequences, FiniteSets, TLC
 
 CONSTANTS InPlace, MaxLen
 
-Ops    == {"class", "function", "argparse", "rest", "numpydoc", "google", "class_call", "parse_function", "parse_class"}
+Ops    == {"class", "function", "argparse", "rest", "numpydoc", "google", "class_call", "parse_function", "parse_class", "parse_argparse"}
 Taints == {"retMoved", "docDefaults", "noneNorm", "typAny", "bodyRenamed"}
 
 WriteSet(op) ==
